@@ -46,3 +46,10 @@ def cases(rng, tier):
 
 def search(rng, ops, broken):
     return cases(rng, "thorough")[:4000]
+
+from .common import LEVEL_NOTE, TECHNIQUE  # noqa: E402
+LEVEL_TEXT = ("Kernel-checked theorems for every domain size and every rational well-formed opinion: the model's projection is "
+              "b+a*u (a distribution), uncertainty_maximized returns a well-formed simplex with the same projection, u'>=u, "
+              "u' = min(1, min_{a>eps} P/a), a zero mass unless vacuous, idempotent. The model is tied to the code by running "
+              "proj/maxu/umax of the real crate in all container families and both precisions against the exact model, and the "
+              "theorem predicates are evaluated on the implementation's outputs.")
